@@ -20,7 +20,6 @@ import (
 	"fmt"
 	"io"
 	"log/slog"
-	"math"
 	"sync/atomic"
 	"time"
 
@@ -313,7 +312,7 @@ func (d *db) GetSequenceUpdates(prefixKey string) (SequenceWaiter, error) {
 
 	// First read last key in the sequence
 	it, err := d.kv.KeyRangeScanReverse(fmt.Sprintf("%s-%020d", prefixKey, 0),
-		fmt.Sprintf("%s-%020d", prefixKey, math.MaxInt64))
+		fmt.Sprintf("%s-%020d", prefixKey, maxSequence))
 	if err != nil {
 		err = multierr.Append(err, sw.Close())
 		return nil, err
